@@ -27,8 +27,8 @@ makes that choice explicit (`nextSeed`, `resendSeed`) and the theorems quantify 
   every history and everything outside F12.
 * History level, publishes of QoS 1 and 2 (end of the file; lemmas in `Lemmas/BrokerOrderQos.lean`, namespace `O12q`):
   `C12_publish_qos1_op_outputs`, `C12_publish_qos2_op_outputs` (the op decomposed: acknowledgement, ONE routing call,
-  the publisher's own release tail), `C12_history_order_qos1_partial`, `C12_history_order_qos2_partial`, and the demo
-  `h12HistoryQ1`.
+  the publisher's own release tail), `C12_history_order_qos1_partial`, `C12_history_order_qos2_partial`, and the demos
+  `h12HistoryQ1`, `h12HistoryOwn` (the publisher receives its own messages), `h12HistoryQ2`.
 -/
 namespace Mochi.Broker
 open Mochi.Topics
@@ -123,7 +123,8 @@ open Mochi.Topics
 
     COVERED: deliveries whose copy is QoS 0 because the PUBLISH is QoS 0 — they are never deferred.
     NOT covered here (full statement: any `q₁ q₂`, copies of QoS > 0 that are immediate in the sense of `notDeferred`):
-    the op-level decomposition of the QoS 1/2 PUBLISH op is missing; what is proved for them is the routing call
+    for PUBLISH packets of QoS 1 and 2 see `C12_history_order_qos1_partial` / `C12_history_order_qos2_partial` below
+    (the op decomposed: `C12_publish_qos1_op_outputs`, `C12_publish_qos2_op_outputs`); also proved: the routing call
     (`C12_routing_immediate_any_qos`: the served connection is written its copy by the call itself) and the generic
     order theorem `C12_history_order_of_first_tx`, which applies to ANY two ops once "the op writes `c` exactly this
     PUBLISH" is known.  DEFERRED deliveries and RESENDS are out by F12 (`C12_deferred_release_counterexample`,
@@ -422,8 +423,9 @@ theorem C12_publish_qos1_op_outputs (s : Server) (hw : WF s) (conn i : Nat) (dup
     ops (`ReachSeq`); `ops`: ANY history without schedule ops (fresh connection numbers), of any length, with arbitrary
     ops of other clients in between.  If the `i`-th and the `j`-th op (`i < j`) are PUBLISH packets of QoS 1 on
     connection `p` to the same topic `t`, each accepted in the state before it (`O12q.PubQ1`: the gates `AcceptedQ1`,
-    no shared subscription matching `t`, `c` is not the publisher's own connection), no registered client has outbound
-    topic aliases in those two states, and the receiver on connection `c` is entitled through a subscription of
+    no shared subscription matching `t`, and the publisher's own release tail cannot write to `c`: `c` is not the
+    publisher's connection, or — the publisher subscribed to its own topic — the publisher is `O12q.Calm`: it holds no
+    deferred message or has no send quota), no registered client has outbound topic aliases in those two states, and the receiver on connection `c` is entitled through a subscription of
     QoS ≥ 1 with its delivery IMMEDIATE in the state before each op (`O12q.RecvImm`: `notDeferred`, below the in-flight
     limit, a packet identifier available — the hypothesis of `C12_routing_immediate_any_qos`), then
     * op `i` writes `c` EXACTLY ONE PUBLISH `m₁`, op `j` exactly one `m₂` — in the publishing step itself;
@@ -431,12 +433,12 @@ theorem C12_publish_qos1_op_outputs (s : Server) (hw : WF s) (conn i : Nat) (dup
       (`dup = false`), both of QoS 1;
     * on `c`'s stream `m₁` comes before `m₂`: `pubsTo c (flat s ops) = A ++ m₁ :: B ++ m₂ :: C`.
 
-    FULL statement (not proved): the same without `PubQ1.other` (the publisher subscribed to its own topic — then the
-    op's release tail, which writes the publisher's connection, has to be shown free of PUBLISH packets: true when the
-    publisher holds no deferred message, not done here), with outbound topic aliases (`Q1.NoAliases` is a hypothesis of
-    the routing theorem `publishToSubscribers_writes_exact_qos`), with matching shared subscriptions for OTHER
-    receivers, inbound topic aliases and hook modes, and for histories with schedule ops (for those the generic
-    `C12_history_order_of_first_tx` applies once the two singleton facts are known).
+    FULL statement (not proved): the same with outbound topic aliases (`Q1.NoAliases` is a hypothesis of the routing
+    theorem `publishToSubscribers_writes_exact_qos`), with matching shared subscriptions for OTHER receivers, inbound
+    topic aliases and hook modes, and for histories with schedule ops (for those the generic
+    `C12_history_order_of_first_tx` applies once the two singleton facts are known).  A publisher that receives its
+    own messages AND holds a deferred message with send quota left is excluded by `PubQ1.own`: there the op's release
+    tail does write a PUBLISH to `c` — a deferred release, F12.
     DEFERRED deliveries and RESENDS are out by F12: the property is false there
     (`C12_deferred_release_counterexample`, `C12_resend_counterexample`). -/
 theorem C12_history_order_qos1_partial (caps : Caps) (s : Server) (hr : ReachSeq caps s) (ops : List Op) (hseq : SeqOps ops)
@@ -489,11 +491,11 @@ theorem h12q_noAliases : Q1.NoAliases (run (init {}) (h12HistoryQ1.take 3)) ∧
     identifiers 1 and 2) and the receiver `s` (connection 1) … -/
 theorem h12q_pub3 : O12q.PubQ1 (run (init {}) (h12HistoryQ1.take 3)) 2 2 1 1 [97] :=
   ⟨by decide, ⟨by decide, by decide, by decide, by decide, by decide, by decide, by decide, by decide, by decide,
-    by decide, by decide⟩, by decide, by decide⟩
+    by decide, by decide⟩, by decide, Or.inr (by decide)⟩
 
 theorem h12q_pub7 : O12q.PubQ1 (run (init {}) (h12HistoryQ1.take 7)) 2 2 1 2 [97] :=
   ⟨by decide, ⟨by decide, by decide, by decide, by decide, by decide, by decide, by decide, by decide, by decide,
-    by decide, by decide⟩, by decide, by decide⟩
+    by decide, by decide⟩, by decide, Or.inr (by decide)⟩
 
 /-- … `s` (client object 1, id `s`) is the receiver, its delivery immediate both times: no Receive Maximum, no record /
     the acknowledged record gone, packet identifiers 1 and 3 available … -/
@@ -522,6 +524,73 @@ theorem h12q_order : ∃ m₁ m₂ A B C,
 /-- the conclusion, visible: what `s` (connection 1) is written, in order (origin, payload, QoS, packet id, dup) -/
 example : (O12.pubsTo 1 (O12.flat (init {}) h12HistoryQ1)).map (fun m => (m.origin, m.payload, m.qos, m.id, m.dup)) =
     [([112], [1], 1, 1, false), ([113], [9], 1, 2, false), ([112], [2], 1, 3, false)] := by decide
+
+end Mochi.Broker
+
+/-! ### Non-vacuity of the case `c` = the publisher's own connection (`PubQ1.own`, left alternative) -/
+namespace Mochi.Broker
+open Mochi.Topics
+
+/-- the publisher receives its own messages: `p` (connection 2, MQTT 5, Receive Maximum 5) subscribes `a` at QoS 1 and
+    publishes `01` (op 2) and `02` (op 4) at QoS 1, a PINGREQ in between -/
+def h12HistoryOwn : List Op :=
+  [.connect 2 { ver := 5, id := [112], rm := some 5 },
+   .recv 2 (.subscribe 1 0 [{ filter := [97], qos := 1 }]),
+   .recv 2 (.publish 1 false false 1 [97] [1] 0 none),
+   .recv 2 .pingreq,
+   .recv 2 (.publish 1 false false 2 [97] [2] 0 none)]
+
+theorem h12o_seq : SeqOps h12HistoryOwn ∧ OpsFresh (init {}) h12HistoryOwn := by decide
+
+theorem h12o_noLocal (n : Nat)
+    (hd : ((assocGet (subscribers (run (init {}) (h12HistoryOwn.take n)).topics [97]).subs [112]).map (·.noLocal)) =
+      some false) :
+    ¬ ∃ sub, MatchingSub (run (init {}) (h12HistoryOwn.take n)).topics [97] [112] sub ∧ sub.noLocal = true := by
+  intro hex
+  have hx := (O12.reach_take (ReachSeq.init (caps := {})) h12HistoryOwn h12o_seq.1 h12o_seq.2 n).inv.1.idx
+  obtain ⟨sub', hg, hn'⟩ := (hasSub_subscribers_idx mergeOr_noLocal _ hx [97] (by decide) (by decide) [112]).mpr hex
+  rw [hg] at hd
+  simp only [Option.map_some] at hd
+  have hn'' : sub'.noLocal = true := hn'
+  rw [hn''] at hd
+  cases hd
+
+theorem h12o_noAliases : Q1.NoAliases (run (init {}) (h12HistoryOwn.take 2)) ∧
+    Q1.NoAliases (run (init {}) (h12HistoryOwn.take 4)) :=
+  ⟨fun id i h => (by decide : ∀ e ∈ (run (init {}) (h12HistoryOwn.take 2)).clients,
+      (getObj (run (init {}) (h12HistoryOwn.take 2)) e.2).tam = 0) (id, i) h,
+   fun id i h => (by decide : ∀ e ∈ (run (init {}) (h12HistoryOwn.take 4)).clients,
+      (getObj (run (init {}) (h12HistoryOwn.take 4)) e.2).tam = 0) (id, i) h⟩
+
+/-- the publisher (client object 1, connection 2 = the receiving connection) holds no deferred message: `Calm` -/
+theorem h12o_pub2 : O12q.PubQ1 (run (init {}) (h12HistoryOwn.take 2)) 2 1 2 1 [97] :=
+  ⟨by decide, ⟨by decide, by decide, by decide, by decide, by decide, by decide, by decide, by decide, by decide,
+    by decide, by decide⟩, by decide, Or.inl (Or.inl (by decide))⟩
+
+theorem h12o_pub4 : O12q.PubQ1 (run (init {}) (h12HistoryOwn.take 4)) 2 1 2 2 [97] :=
+  ⟨by decide, ⟨by decide, by decide, by decide, by decide, by decide, by decide, by decide, by decide, by decide,
+    by decide, by decide⟩, by decide, Or.inl (Or.inl (by decide))⟩
+
+theorem h12o_recv2 : O12q.RecvImm (run (init {}) (h12HistoryOwn.take 2))
+    (inboundMsg (run (init {}) (h12HistoryOwn.take 2)) 1 1 false false 1 [97] [1] 0) 2 [112] 1 1 :=
+  ⟨by decide, by decide, by decide, by decide, by decide,
+    ⟨{ filter := [97], qos := 1 }, ⟨by decide, by decide⟩, by decide⟩, by decide,
+    fun h => h12o_noLocal 2 (by decide) h.2, Or.inr (by decide), by decide, by decide⟩
+
+theorem h12o_recv4 : O12q.RecvImm (run (init {}) (h12HistoryOwn.take 4))
+    (inboundMsg (run (init {}) (h12HistoryOwn.take 4)) 1 1 false false 2 [97] [2] 0) 2 [112] 1 2 :=
+  ⟨by decide, by decide, by decide, by decide, by decide,
+    ⟨{ filter := [97], qos := 1 }, ⟨by decide, by decide⟩, by decide⟩, by decide,
+    fun h => h12o_noLocal 4 (by decide) h.2, Or.inr (by decide), by decide, by decide⟩
+
+/-- the theorem applies with `c` = the publisher's own connection: `01` before `02`, each written once by its op -/
+theorem h12o_order : ∃ m₁ m₂ A B C,
+    (O12q.FirstTx m₁ [1] [97] [112] 1 ∧ m₁.qos = 1) ∧ (O12q.FirstTx m₂ [2] [97] [112] 1 ∧ m₂.qos = 1) ∧
+    O12.pubsTo 2 (O12.flat (init {}) h12HistoryOwn) = A ++ m₁ :: B ++ m₂ :: C := by
+  obtain ⟨m₁, m₂, A, B, C, _, _, c1, c2, e⟩ := C12_history_order_qos1_partial {} (init {}) ReachSeq.init h12HistoryOwn
+    h12o_seq.1 h12o_seq.2 2 2 2 4 1 1 1 2 [97] false false false false [1] [2] 0 0 rfl rfl (by decide)
+    h12o_noAliases.1 h12o_noAliases.2 h12o_pub2 h12o_pub4 [112] [112] 1 1 1 2 h12o_recv2 h12o_recv4
+  exact ⟨m₁, m₂, A, B, C, c1, c2, e⟩
 
 end Mochi.Broker
 
@@ -555,7 +624,10 @@ theorem C12_publish_qos2_op_outputs (s : Server) (conn i : Nat) (dup retain : Bo
     whatever happens to the two inbound exchanges in between (PUBREL or not) —: each publishing op (the PUBLISH itself)
     writes the receiver `c` EXACTLY ONE PUBLISH, the copy of its message, a first transmission (`dup = false`) of
     QoS 1 or 2 (`O12q.FirstTx … 2`), and `m₁` precedes `m₂` on `c`'s stream.
-    Restrictions and the FULL statement: as for `C12_history_order_qos1_partial`. -/
+    Restrictions and the FULL statement: as for `C12_history_order_qos1_partial`, and additionally `c` must not be the
+    publisher's own connection (`PubQ2.other`): the routing state holds the PUBREC record in the PUBLISHER's in-flight
+    list, so for a publisher receiving its own message the immediacy hypotheses (in-flight limit, next packet
+    identifier) would have to be stated on that state — not done. -/
 theorem C12_history_order_qos2_partial (caps : Caps) (s : Server) (hr : ReachSeq caps s) (ops : List Op) (hseq : SeqOps ops)
     (hf : OpsFresh s ops) (p c i j k₁ k₂ id₁ id₂ : Nat) (t : Str) (d₁ r₁ d₂ r₂ : Bool) (pay₁ pay₂ : Str) (me₁ me₂ : Nat)
     (hi : ops[i]? = some (.recv p (.publish 2 d₁ r₁ id₁ t pay₁ me₁ none)))
@@ -633,3 +705,4 @@ end Mochi.Broker
 #print axioms Mochi.Broker.C12_publish_qos2_op_outputs
 #print axioms Mochi.Broker.C12_history_order_qos2_partial
 #print axioms Mochi.Broker.h12q2_order
+#print axioms Mochi.Broker.h12o_order
